@@ -103,7 +103,7 @@ def parse_block(toks, i, known, allcond=False):
     """toks[i] == '{'.  Returns (events of the block, index after the matching '}').  An event is
     ('use', what) | ('ensure',) | ('call', f) | ('guard',) | ('return',) | ('block', [events]).
     allcond: every statement of this block (and of the nested ones) is conditional - used for the body of a
-    switch and for functions that contain a goto, where textual order is not execution order"""
+    switch and for functions that contain a forward goto, where textual order is not execution order"""
     assert toks[i] == "{"
     i += 1
     out = []
@@ -178,6 +178,23 @@ def parse_block(toks, i, known, allcond=False):
                     target.append(("call", t))
         i += 1
     return out, i
+
+
+def has_forward_goto(body):
+    """a goto that stands textually before its label can skip statements; a backward goto only repeats
+    statements that come after everything before the label, so textual order still is a dominance order"""
+    if "goto" not in body:
+        return False
+    labels = {}
+    for i in range(1, len(body) - 1):
+        if body[i + 1] == ":" and IDENT.match(body[i]) and body[i] not in KEYWORDS and body[i - 1] in (";", "{", "}", ":"):
+            labels.setdefault(body[i], i)
+    for i, t in enumerate(body):
+        if t == "goto":
+            lab = body[i + 1] if i + 1 < len(body) else ""
+            if lab not in labels or labels[lab] > i:
+                return True
+    return False
 
 
 def prune(evs):
@@ -262,7 +279,7 @@ def translate():
     known = set(defs) - ENSURE - USE_CALLS
     funcs = {}
     for name in known:
-        evs, _ = parse_block(defs[name][1], 0, known, allcond=("goto" in defs[name][1]))
+        evs, _ = parse_block(defs[name][1], 0, known, allcond=has_forward_goto(defs[name][1]))
         funcs[name] = prune(evs)
     api = public_api()
     entries, undefined = [], []
@@ -444,6 +461,7 @@ SKIP_FIRST = {
     "myth_join_counter_wait": "blocks until the counter is decremented by other threads",
     "myth_wsapi_set_stealfunc": "replaces the scheduler's steal function",
     "myth_sleep": "sleeps for whole seconds",
+    "myth_exit": "terminates the calling (main) thread; the process then never exits, also after an explicit myth_init (not a first-use matter)",
     "myth_cond_timedwait": "unimplemented in the library (assert(0) in `unimplemented`)",
     "myth_rwlock_rdlock": "unimplemented in the library (assert(0) in `unimplemented`)",
     "myth_rwlock_tryrdlock": "unimplemented in the library (assert(0) in `unimplemented`)",
